@@ -6,6 +6,7 @@ from .. import resgen
 
 class C07(C06):
     ID = "C07"
+    EXTRA_MODULES = []
     LEMMA_FILES = ["FluentProofs/ResolverRefineDirty.lean", "FluentProofs/ResolverRefineVal.lean", "FluentProofs/ResolverRefineLimit.lean", "FluentProofs/ResolverRefineFrame.lean", "FluentProofs/ResolverRefineTop.lean", "FluentProofs/ResolverSpec.lean", "FluentProofs/ConstTieResolver.lean"]
     RULE = ("as C06 (GR random bundles, bomb family, hand-written scenarios for every clause of the property: term-argument "
             "scoping incl. nested calls followed by a variable, missing message/term/attribute/function/variable at value and "
